@@ -1,8 +1,4 @@
-// Command vh is the Go side of the verification machinery: per property it generates
-// cases from one PRNG, runs the real implementation in-process (built with -tags verif
-// against /repo's working tree), pipes the same cases through the Lean driver `nadrv`,
-// compares the canonicalised outputs and runs the property's direct oracle.
-package main
+package vhlib
 
 import (
 	"encoding/json"
@@ -13,27 +9,26 @@ import (
 	"time"
 )
 
-type propFunc func(ctx *Ctx) *Result
+// PropFunc runs one property's correspondence + oracle and returns what ./check consumes.
+type PropFunc func(ctx *Ctx) *Result
 
-var registry = map[string]propFunc{}
-
-func register(id string, f propFunc) { registry[id] = f }
-
-func main() {
+// Main is the entry point of every harness binary: props maps the property ids this binary
+// serves to their runners.
+func Main(props map[string]PropFunc) {
 	var (
 		prop   = flag.String("prop", "", "property id (C01..C20)")
 		tier   = flag.String("tier", "quick", "quick|thorough")
 		seed   = flag.Uint64("seed", 1, "PRNG seed")
 		out    = flag.String("out", "", "result JSON file")
-		nadrv  = flag.String("nadrv", "/verif/lean/.lake/build/bin/nadrv", "Lean driver binary")
+		nadrv  = flag.String("nadrv", "/verif/lean/.lake/build/bin", "directory of the Lean driver binaries nadrv-*")
 		replay = flag.String("replay", "", "replay file: run only this case")
 		verif  = flag.String("verif", "/verif", "verif root")
 	)
 	flag.Parse()
-	f, ok := registry[*prop]
+	f, ok := props[*prop]
 	if !ok {
 		ids := []string{}
-		for k := range registry {
+		for k := range props {
 			ids = append(ids, k)
 		}
 		sort.Strings(ids)
@@ -41,7 +36,11 @@ func main() {
 		os.Exit(2)
 	}
 	ctx := &Ctx{Prop: *prop, Tier: *tier, Seed: *seed, Nadrv: *nadrv, Replay: *replay, Verif: *verif}
-	ctx.rng = newRNG(*seed)
+	ctx.Rng = NewRNG(*seed)
+	ctx.Repo = os.Getenv("VERIF_REPO")
+	if ctx.Repo == "" {
+		ctx.Repo = "/repo"
+	}
 	start := time.Now()
 	res := f(ctx)
 	res.Property = *prop
@@ -54,5 +53,9 @@ func main() {
 		}
 	} else {
 		os.Stdout.Write(data)
+		fmt.Println()
+	}
+	if *replay != "" && len(res.Failures)+len(res.Disagreements) > 0 {
+		os.Exit(1)
 	}
 }
